@@ -415,10 +415,9 @@ func PutInsertStatement(stmt *InsertStatement) {
 		stmt.Values[i] = stmt.Values[i][:0]
 	}
 
-	// Reset slices but keep capacity
-	stmt.Columns = stmt.Columns[:0]
-	stmt.Values = stmt.Values[:0]
-	stmt.TableName = ""
+	// Reset every field (With, Query, Returning, OnConflict, ... included) so the
+	// next user gets a statement indistinguishable from a new one; keep capacity.
+	*stmt = InsertStatement{Columns: stmt.Columns[:0], Values: stmt.Values[:0]}
 
 	// Return to pool
 	insertStmtPool.Put(stmt)
@@ -444,10 +443,8 @@ func PutUpdateStatement(stmt *UpdateStatement) {
 	}
 	PutExpression(stmt.Where)
 
-	// Reset fields
-	stmt.Assignments = stmt.Assignments[:0]
-	stmt.Where = nil
-	stmt.TableName = ""
+	// Reset every field (With, Alias, From, Returning included); keep capacity.
+	*stmt = UpdateStatement{Assignments: stmt.Assignments[:0]}
 
 	// Return to pool
 	updateStmtPool.Put(stmt)
@@ -467,9 +464,8 @@ func PutDeleteStatement(stmt *DeleteStatement) {
 	// Clean up expressions
 	PutExpression(stmt.Where)
 
-	// Reset fields
-	stmt.Where = nil
-	stmt.TableName = ""
+	// Reset every field (With, Alias, Using, Returning included).
+	*stmt = DeleteStatement{}
 
 	// Return to pool
 	deleteStmtPool.Put(stmt)
@@ -551,14 +547,10 @@ func PutSelectStatement(stmt *SelectStatement) {
 	for i := range stmt.OrderBy {
 		stmt.OrderBy[i].Expression = nil
 	}
-	stmt.OrderBy = stmt.OrderBy[:0]
-
-	stmt.TableName = ""
-	stmt.Where = nil
-	stmt.Limit = nil
-	stmt.Offset = nil
-	stmt.Fetch = nil
-	stmt.For = nil
+	// Reset every field (With, Distinct, From, Joins, GroupBy, Having, Windows,
+	// ... included) so that no fragment of this query reaches the next user of
+	// the pool; keep the capacity of the slices the pool pre-allocates.
+	*stmt = SelectStatement{Columns: stmt.Columns[:0], OrderBy: stmt.OrderBy[:0]}
 
 	// Return to pool
 	selectStmtPool.Put(stmt)
@@ -574,7 +566,7 @@ func PutIdentifier(ident *Identifier) {
 	if ident == nil {
 		return
 	}
-	ident.Name = ""
+	*ident = Identifier{} // Name and Table
 	identifierPool.Put(ident)
 }
 
@@ -590,9 +582,7 @@ func PutBinaryExpression(expr *BinaryExpression) {
 	}
 	PutExpression(expr.Left)
 	PutExpression(expr.Right)
-	expr.Left = nil
-	expr.Right = nil
-	expr.Operator = ""
+	*expr = BinaryExpression{} // Left, Right, Operator, Not, CustomOp
 	binaryExprPool.Put(expr)
 }
 
@@ -729,7 +719,7 @@ func PutExpression(expr Expression) {
 		// Process and collect child expressions
 		switch e := current.(type) {
 		case *Identifier:
-			e.Name = ""
+			*e = Identifier{} // Name and Table
 			identifierPool.Put(e)
 
 		case *BinaryExpression:
@@ -739,9 +729,7 @@ func PutExpression(expr Expression) {
 			if e.Right != nil {
 				workQueue = append(workQueue, e.Right)
 			}
-			e.Left = nil
-			e.Right = nil
-			e.Operator = ""
+			*e = BinaryExpression{} // Left, Right, Operator, Not, CustomOp
 			binaryExprPool.Put(e)
 
 		case *LiteralValue:
@@ -756,11 +744,8 @@ func PutExpression(expr Expression) {
 				}
 				e.Arguments[i] = nil
 			}
-			e.Arguments = e.Arguments[:0]
-			e.Name = ""
-			e.Over = nil
-			e.Distinct = false
-			e.Filter = nil
+			// Reset every field (OrderBy, WithinGroup included); keep capacity.
+			*e = FunctionCall{Arguments: e.Arguments[:0]}
 			functionCallPool.Put(e)
 
 		case *CaseExpression:
@@ -985,11 +970,8 @@ func PutFunctionCall(fc *FunctionCall) {
 		PutExpression(fc.Arguments[i])
 		fc.Arguments[i] = nil
 	}
-	fc.Arguments = fc.Arguments[:0]
-	fc.Name = ""
-	fc.Over = nil
-	fc.Distinct = false
-	fc.Filter = nil
+	// Reset every field (OrderBy, WithinGroup included); keep capacity.
+	*fc = FunctionCall{Arguments: fc.Arguments[:0]}
 	functionCallPool.Put(fc)
 }
 
